@@ -86,7 +86,7 @@ Definition process_pop (bs : list str) (r : row) (p : pop) : option (option pred
             | Some (CNode n) => Some (rprd, Some (ONode n))
             | Some (CPred x) => Some (rprd, Some (OPred x))
             | Some (CLit l) => Some (rprd, Some (OLit l))
-            | _ => None                                (* missing, time cell, empty cell: cellToObject fails *)
+            | _ => None    (* missing, time cell, empty cell; a string cell: cellToObject builds type:string, which does not parse *)
             end
           else if pOTemporal p && nonempty (pOAnchorBinding p) then
             match lookup r (pOAnchorBinding p) with
